@@ -267,4 +267,114 @@ theorem terminal_holder_none (c : Conf L S) (hwl : WL c) (ht : Terminal c) : c.h
     have := hwl h
     simp [ht h, hh, wlc] at this
 
+/-! ### observation logs (branching programs: the coarse run follows the same paths) -/
+
+/-- what one instruction read: the thread-local state and, for `sh`, the shared state -/
+abbrev Obs (L S : Type) := L × Option S
+
+/-- the same instruction, additionally appending what it read to a log kept in the local state -/
+def Cmd.logged : Cmd L S → Cmd (L × List (Obs L S)) S
+  | .loc f => .loc (fun p => (f p.1, p.2 ++ [(p.1, none)]))
+  | .acq => .acq
+  | .rel => .rel
+  | .sh f => .sh (fun p s => (((f p.1 s).1, p.2 ++ [(p.1, some s)]), (f p.1 s).2))
+
+/-- forget the logs -/
+def Conf.forget (c : Conf (L × List (Obs L S)) S) (code : Nat → List (Cmd L S)) : Conf L S :=
+  { threads := fun i => ⟨(c.threads i).loc.1, code i⟩, shared := c.shared, holder := c.holder }
+
+/-- `c'` is `c` with logging instructions and some logs -/
+def LoggedOf (c : Conf L S) (c' : Conf (L × List (Obs L S)) S) : Prop :=
+  c'.shared = c.shared ∧ c'.holder = c.holder ∧
+  ∀ i, (c'.threads i).loc.1 = (c.threads i).loc ∧ (c'.threads i).code = (c.threads i).code.map Cmd.logged
+
+theorem step_logged (c cn : Conf L S) (c' : Conf (L × List (Obs L S)) S) (i : Nat)
+    (h : LoggedOf c c') (hs : step c i = some cn) : ∃ cn', step c' i = some cn' ∧ LoggedOf cn cn' := by
+  obtain ⟨hsh, hho, hth⟩ := h
+  have hi := hth i
+  unfold step at hs ⊢
+  cases hcode : (c.threads i).code with
+  | nil => simp [hcode] at hs
+  | cons ins r =>
+    rw [hcode] at hi
+    rw [hi.2]
+    cases ins with
+    | loc f =>
+      simp [hcode] at hs; subst hs
+      simp only [List.map_cons, Cmd.logged]
+      refine ⟨_, rfl, hsh, hho, ?_⟩
+      intro j
+      by_cases hj : j = i
+      · subst hj; simp [hi.1]
+      · simp [upd, hj]; exact hth j
+    | acq =>
+      by_cases hn : c.holder = none
+      · simp [hcode, hn] at hs; subst hs
+        simp only [List.map_cons, Cmd.logged, hho, hn, if_true]
+        refine ⟨_, rfl, hsh, rfl, ?_⟩
+        intro j
+        by_cases hj : j = i
+        · subst hj; simp [hi.1]
+        · simp [upd, hj]; exact hth j
+      · simp [hcode, hn] at hs
+    | rel =>
+      by_cases hn : c.holder = some i
+      · simp [hcode, hn] at hs; subst hs
+        simp only [List.map_cons, Cmd.logged, hho, hn, if_true]
+        refine ⟨_, rfl, hsh, rfl, ?_⟩
+        intro j
+        by_cases hj : j = i
+        · subst hj; simp [hi.1]
+        · simp [upd, hj]; exact hth j
+      · simp [hcode, hn] at hs
+    | sh f =>
+      simp [hcode] at hs; subst hs
+      simp only [List.map_cons, Cmd.logged]
+      refine ⟨_, rfl, by simp [hsh, hi.1], hho, ?_⟩
+      intro j
+      by_cases hj : j = i
+      · subst hj; simp [hi.1, hsh]
+      · simp [upd, hj]; exact hth j
+/-- start every thread with an empty log -/
+def Conf.withLogs (c : Conf L S) : Conf (L × List (Obs L S)) S :=
+  { threads := fun i => ⟨((c.threads i).loc, []), (c.threads i).code.map Cmd.logged⟩,
+    shared := c.shared, holder := c.holder }
+
+theorem loggedOf_withLogs (c : Conf L S) : LoggedOf c c.withLogs :=
+  ⟨rfl, rfl, fun _ => ⟨rfl, rfl⟩⟩
+
+theorem exec_logged (sched : List Nat) : ∀ (c cf : Conf L S) (c' : Conf (L × List (Obs L S)) S),
+    LoggedOf c c' → exec c sched = some cf → ∃ cf', exec c' sched = some cf' ∧ LoggedOf cf cf' := by
+  induction sched with
+  | nil => intro c cf c' h he; simp [exec] at he; subst he; exact ⟨c', rfl, h⟩
+  | cons i is ih =>
+    intro c cf c' h he
+    simp only [exec] at he
+    cases hs : step c i with
+    | none => simp [hs] at he
+    | some cn =>
+      simp [hs] at he
+      obtain ⟨cn', hs', hl⟩ := step_logged c cn c' i h hs
+      obtain ⟨cf', he', hlf⟩ := ih cn cf cn' hl he
+      exact ⟨cf', by simp [exec, hs', he'], hlf⟩
+
+theorem logged_instr (code : List (Cmd L S)) :
+    (code.map Cmd.logged).map Cmd.instr = code.map Cmd.instr := by
+  induction code with
+  | nil => rfl
+  | cons x r ih => cases x <;> simp [Cmd.logged, Cmd.instr, ih]
+
+theorem WL_logged (c : Conf L S) (c' : Conf (L × List (Obs L S)) S) (h : LoggedOf c c')
+    (hwl : WL c) : WL c' := by
+  intro i
+  have := hwl i
+  rw [wlc_eq_wl] at this ⊢
+  rw [(h.2.2 i).2, logged_instr, h.2.1]
+  exact this
+
+theorem terminal_logged (c : Conf L S) (c' : Conf (L × List (Obs L S)) S) (h : LoggedOf c c')
+    (ht : Terminal c) : Terminal c' := by
+  intro i
+  rw [(h.2.2 i).2, ht i]; rfl
+
 end Redress.Threads
